@@ -135,9 +135,22 @@ Fixpoint base_aclose (b : base) : M := fun e w ls =>
 
 (* ------------------------------------------------------------------ TLS *)
 Record tlscfg := { t_std : bool (* standard_compatible *); t_unwrap : nat (* suspension points of unwrap() *);
-                   t_hs : nat (* suspension points of the handshake *) }.
+                   t_hs : nat (* suspension points of the handshake *);
+                   t_unread : bool (* unread application data when the close starts: unwrap() writes the
+                                      close_notify alert and raises SSLError at once *);
+                   t_flush : nat (* suspension points of flushing that alert (send lock, send_all to a slow peer) *) }.
 
 Definition timed (p : M) : M := fun e w ls => p {| e_forced := e_forced e; e_timed := true |} w ls.
+
+Definition swallow_err (x : res * world * list xlabel) : res * world * list xlabel :=
+  match x with (RErr, w, ls) => (ROk, w, ls) | y => y end.
+
+(* the body of the inner try of aclose():  try: unwrap()  except SSLError: flush the pending alert (suppress OSError)
+   except OSError: pass.  Every await of it -- those of the flush included -- is covered by the outer
+   "except BaseException: aclose_forcefully(transport); raise". *)
+Definition tls_shutdown (c : tlscfg) : M := fun e w ls =>
+  if t_unread c then swallow_err (points (t_flush c) e w ls)
+  else swallow_err (points (t_unwrap c) e w ls).
 
 (* AsyncTLSStreamTransport.aclose *)
 Definition tls_aclose (c : tlscfg) (b : base) : M := fun e w ls =>
@@ -149,7 +162,7 @@ Definition tls_aclose (c : tlscfg) (b : base) : M := fun e w ls =>
       let '(r, w', ls') := x in (r, set_tls_closed (set_tls_closing w'), ls') in
     if t_std c && negb (base_closing b w0) then
       (* with move_on_after(shutdown_timeout): try: (try: unwrap except OSError: pass) except BaseException: ... *)
-      match timed (points (t_unwrap c)) e w0 ls with
+      match timed (tls_shutdown c) e w0 ls with
       | (ROk, w1, ls1) | (RErr, w1, ls1) => fin (base_aclose b e w1 ls1)
       | (x, w1, ls1) =>
           if unwrap_handler_catches_base || match x with RCancel | RForced | RShutdown => false | _ => true end then
